@@ -151,6 +151,18 @@ type Reader struct {
 
 // NewReader connects (DESCRIBE + SETUP of all medias); OnPacket is installed before PLAY.
 func (b *Bed) NewReader(cfg ReaderCfg, path string, onPacket func(medi *description.Media, forma format.Format, pkt *rtp.Packet)) (*Reader, error) {
+	r, err := b.newReader(cfg, path, onPacket)
+	if err != nil && cfg.Tunnel == "http" && cfg.AfterDescribe == nil {
+		// the server answers a tunnel GET before it has registered it: a POST that overtakes the
+		// registration is refused (see spec/TunnelPair.tla). Rare, not what the callers study:
+		// one more attempt.
+		time.Sleep(50 * time.Millisecond)
+		r, err = b.newReader(cfg, path, onPacket)
+	}
+	return r, err
+}
+
+func (b *Bed) newReader(cfg ReaderCfg, path string, onPacket func(medi *description.Media, forma format.Format, pkt *rtp.Packet)) (*Reader, error) {
 	r := &Reader{Cfg: cfg}
 	scheme := "rtsp"
 	if b.Cfg.TLS != nil {
